@@ -10,10 +10,10 @@ ID = "C17"
 TECHNIQUE = ("bounded-exhaustive enumeration of (control, test) trace pairs built from per-step event bags x every "
              "rank / iteration / device selection x long|short names, real TraceDiff.compare_traces / ops_diff vs "
              "recount from the reference parse")
-RULE = ("a trace = R ranks x profiler steps {5,6} x one event bag per (rank, step) from an alphabet of B bags (ops "
+RULE = ("a trace = R ranks x profiler steps {5,6,7} x one event bag per (rank, step; the bag of step 7 is a function of the other two) from an alphabet of B bags (ops "
         "with repeated names and different durations, launch+kernel pairs incl. two templated kernels whose short "
         "names collide, events outside any step); every ordered pair of 1-rank traces incl. self-comparison x "
-        "iteration selection {None,5,6,[5,6],[6,5]} x device {CPU,GPU,ALL} x short names {F,T}; multi-rank pairs x "
+        "iteration selection {None,5,6,[5,6],[6,5],[5,7],[7,5,6]} x device {CPU,GPU,ALL} x short names {F,T}; multi-rank pairs x "
         "every rank selection (None, int, every non-empty sub-list). non-trivial = at least two of the five change "
         "classes are non-empty")
 ASSUMPTIONS = [
@@ -42,7 +42,7 @@ def bounds(tier: str) -> Dict[str, Any]:
 
 
 def trace_events(bags_by_step, rank: int) -> List[Dict[str, Any]]:
-    """steps 5 at [10,40), 6 at [40,70); bag events laid out sequentially inside their step"""
+    """steps 5 at [10,40), 6 at [40,70), 7 at [70,100); bag events laid out sequentially inside their step"""
     evs = [kineto.cpu_op("aten::root", E0, 5, ext=0)]
     corr = 100 * (rank + 1)
     for si, (stepno, bag) in enumerate(bags_by_step):
@@ -60,7 +60,7 @@ def trace_events(bags_by_step, rank: int) -> List[Dict[str, Any]]:
                     evs.append(kineto.kernel(name, t + 2, dur, 7, corr))
             corr += 1
             t += 4
-    evs.append(kineto.cpu_op("aten::outside", E0 + 80, 2, ext=1))
+    evs.append(kineto.cpu_op("aten::outside", E0 + 110, 2, ext=1))
     return evs
 
 
@@ -97,7 +97,8 @@ def get_lt(spec, label: str, mode: str):
     key = (tuple(map(tuple, spec)), label, mode)
     if key in _CACHE:
         return _CACHE[key]
-    ranks = {r: trace_events([(5, BAGS[bs[0]]), (6, BAGS[bs[1]])], r) for r, bs in enumerate(spec)}
+    ranks = {r: trace_events([(5, BAGS[bs[0]]), (6, BAGS[bs[1]]), (7, BAGS[(bs[0] + 2 * bs[1] + 1) % len(BAGS)])], r)
+             for r, bs in enumerate(spec)}
     sc = htaenv.scratch()
     d = sc.fresh()
     kineto.write_world(d, ranks, "json")
@@ -166,7 +167,7 @@ def check(world) -> Dict[str, Any]:
     execs = 0
     classes_seen = set()
     rank_sels = [None] if R == 1 else [None, 0, R - 1] + sublists(list(range(R)))
-    iter_sels = [None, 5, 6, [5, 6], [6, 5]] if R == 1 else [None, [5, 6]]
+    iter_sels = [None, 5, 6, [5, 6], [6, 5], [5, 7], [7, 5, 6]] if R == 1 else [None, [5, 7]]
     for rs in rank_sels:
         for its in iter_sels:
             for dev in ("CPU", "GPU", "ALL"):
